@@ -100,6 +100,10 @@ Definition q_btype (q : nat) : option btype :=
   | 4 => Some Single | 5 => Some Amide | 6 => Some Aromatic | 8 => Some Double | 12 => Some Triple | _ => None
   end.
 
+(* a serial that became float NaN in a pandas column (as found, from_dataframe stores the NaN in the
+   atom; PDB serials are never negative, so -1 is free to stand for it) *)
+Definition nan_serial : Z := (-1)%Z.
+
 Record atom := { a_name : string; a_elem : string; a_index : nat; a_res : loc; a_serial : option Z }.
 Record resid := { r_name : string; r_index : nat; r_chain : loc; r_resSeq : Z; r_seg : string; r_atoms : list loc }.
 Record chain := { c_index : nat; c_id : option string; c_res : list loc }.
@@ -137,10 +141,11 @@ Record flags := {
   f_hash : bool;        (* __hash__ built from what __eq__ compares *)
   f_conect_num : bool;  (* CONECT numbers are the numbers written in the ATOM records *)
   f_conect_del : bool;  (* CONECT continuation drops the three partners it printed, not four *)
-  f_h5_full : bool      (* hypothetical: the HDF5 JSON also holds serial, chain_id, bond type and order *)
+  f_h5_full : bool;     (* hypothetical: the HDF5 JSON also holds serial, chain_id, bond type and order *)
+  f_df_serial : bool    (* from_dataframe turns a missing serial (NaN in the frame) back into None *)
 }.
-Definition flags_cur : flags := Build_flags false false false false false false false false false false false.
-Definition flags_fix : flags := Build_flags true true true true true true true true true true true.
+Definition flags_cur : flags := Build_flags false false false false false false false false false false false false.
+Definition flags_fix : flags := Build_flags true true true true true true true true true true true true.
 
 (* ------------------------------------------------------------------ Topology methods (heap level) *)
 (* add_chain(chain_id) *)
